@@ -82,7 +82,7 @@ CHECK_DEADLOCK FALSE
 const allInvs = "InvContents InvShape InvRange InvVersions InvRank"
 
 var generalClasses = []string{"set", "set", "set", "set", "set", "set", "set", "rm", "rmhit", "rmhit", "save", "save", "save",
-	"rollback", "reopen", "reopen", "load", "lvfo", "delto", "delto", "setnil", "import"}
+	"rollback", "reopen", "reopen", "load", "savecsreplay", "savecsreplay", "lvfo", "delto", "delto", "setnil", "import"}
 
 func hasOps(b *model.Behaviour, ops ...string) bool {
 	for _, op := range ops {
@@ -298,7 +298,7 @@ func Build(id, tier string, seed int64) (*BehavCheck, error) {
 		c.Classes = exec.Classes{}
 		c.ParkPoints = []string{"save:before-commit", "save:committed", "prune:version", "get:fastnode"}
 		c.Sim.K, c.Sim.D = 6, 30
-		c.Sim.Num = tierNum(tier, 10, 250)
+		c.Sim.Num = tierNum(tier, 10, 60) // schedule replays run one at a time (the yield hook is one variable)
 		c.ShortNum = 0
 		c.Sim.Classes = []string{"set", "set", "set", "set", "rm", "rmhit", "rmhit", "save", "save", "save", "save", "rollback", "reopen", "delto", "deltook", "deltook", "savecs", "expopen", "expopen", "expclose"}
 		c.Configure = func(rng *rand.Rand, cfg *exec.Config) {
